@@ -1,4 +1,5 @@
 import Wasp.Model.Dist
+import Wasp.Proofs.DistSync
 /-!
 # C09 — every local state change is carried completely by the broadcasts it queues
 
@@ -63,12 +64,39 @@ def clockOk : Int → List (Int × Op) → Prop
   | _, [] => True
   | last, (now, _) :: rest => last < now ∧ clockOk now rest
 
+/-- one step keeps origin and receiver in sync -/
+theorem sync_step {last now : Int} {a b : State} (h : SyncInv last a b) (h0 : 0 ≤ last) (hlt : last < now)
+    (op : Op) (hv : op.valid) :
+    SyncInv now (applyOp a now op).1 (recv b (applyOp a now op).2) := by
+  cases op with
+  | sessCreate id c ca lwt mp => exact sync_sessCreate h h0 hlt id c ca lwt mp hv
+  | sessDelete id => exact sync_sessDelete h hlt id
+  | sessDeletePeer p => exact sync_sessDeletePeer h hlt p
+  | subCreate s p q => exact sync_subCreate h h0 hlt s p q hv
+  | subDelete s p => exact sync_subDelete h h0 hlt s p hv
+  | subDeletePeer p => exact sync_subBulkDelete h hlt _
+  | subDeleteSession s => exact sync_subBulkDelete h hlt _
+  | topicSet t p q r d => exact sync_topicSet h h0 hlt t p q r d hv
+  | topicDelete t => exact sync_topicDelete h h0 hlt t hv
+
+theorem sync_run {last : Int} {a b : State} (script : List (Int × Op)) (h : SyncInv last a b) (h0 : 0 ≤ last)
+    (hv : ∀ x ∈ script, x.2.valid) (hc : clockOk last script) :
+    ∃ last', SyncInv last' (runBoth a b script).1 (runBoth a b script).2 := by
+  induction script generalizing last a b with
+  | nil => exact ⟨last, h⟩
+  | cons x rest ih =>
+    obtain ⟨now, op⟩ := x
+    simp only [clockOk] at hc
+    have hstep := sync_step h h0 hc.1 op (hv (now, op) (by simp))
+    exact ih hstep (by omega) (fun y hy => hv y (by simp [hy])) hc.2
+
 /-- C09: origin and receiver hold identical stores after any script -/
 theorem C09_receiver_equals_origin (pa pb : Nat) (script : List (Int × Op))
     (hv : ∀ x ∈ script, x.2.valid) (hc : clockOk 0 script) :
     let r := runBoth { peer := pa } { peer := pb } script
     r.2.sessions = r.1.sessions ∧ r.2.subs = r.1.subs ∧ r.2.topics = r.1.topics := by
-  sorry
+  obtain ⟨_, h⟩ := sync_run script (SyncInv.init pa pb) (Int.le_refl 0) hv hc
+  exact ⟨h.1, h.2.1, h.2.2.1⟩
 
 /-- … hence they list the same things (sessions, subscriptions, by pattern, retained) -/
 theorem C09_same_listing (pa pb : Nat) (script : List (Int × Op))
@@ -76,20 +104,29 @@ theorem C09_same_listing (pa pb : Nat) (script : List (Int × Op))
     let r := runBoth { peer := pa } { peer := pb } script
     sessAll r.2 = sessAll r.1 ∧ subAll r.2 = subAll r.1 ∧
       subByPattern r.2 topic = subByPattern r.1 topic ∧ topicGet r.2 pattern = topicGet r.1 pattern := by
-  sorry
+  obtain ⟨h1, h2, h3⟩ := C09_receiver_equals_origin pa pb script hv hc
+  simp only [sessAll, sessFilter, subAll, subFilter, subByPattern, topicGet]
+  simp only [h1, h2, h3, and_self]
 
 /-- a bulk removal's broadcast contains exactly the entries it stamped -/
 theorem C09_bulk_complete_subs (st : State) (now : Int) (f : Sub → Bool) :
     (subBulkDelete st now f).2.subs = (subFilter st f).map (fun s => { s with deleted := now }) := by
-  sorry
+  rfl
 
 theorem C09_bulk_complete_sessions (st : State) (now : Int) (p : Nat) :
     (sessDeletePeer st now p).2.sessions = (sessByPeer st p).map (fun s => { s with deleted := now }) := by
-  sorry
+  rfl
 
 /-- an operation that changes the origin always queues a broadcast -/
 theorem C09_no_silent_change (st : State) (now : Int) (op : Op) (h : (applyOp st now op).2 = none) :
     (applyOp st now op).1 = st := by
-  sorry
+  cases op with
+  | sessCreate id c ca lwt mp =>
+    simp only [applyOp, sessCreate] at h ⊢
+    split at h <;> (try split at h) <;> simp_all
+  | sessDelete id =>
+    simp only [applyOp, sessDelete] at h ⊢
+    split at h <;> (try split at h) <;> simp_all
+  | _ => simp [applyOp] at h
 
 end Wasp.Dist
